@@ -101,6 +101,10 @@ inductive Op where
   | start (r : Nat)
   | lead (m : Nat)
   | isBoot (m : Nat) (hdr : Nat)
+  /-- PutClusterConfig: cluster id of the header, cluster id named in the metapb.Cluster of the body -/
+  | putConfig (m : Nat) (hdr : Nat) (body : Nat)
+  /-- the requests of one Tso stream (their header cluster ids), in order -/
+  | tso (m : Nat) (hdrs : List Nat)
   deriving Repr, DecidableEq
 
 /-- validateRequest -/
@@ -111,9 +115,28 @@ def validate (s : St) (m : Member) (hdr : Nat) : Option Out :=
 
 def setReq (s : St) (r : Nat) (x : Req) : St := { s with reqs := s.reqs.set r x }
 
-inductive StepOut where
-  | parked | resp (o : Out) | isBoot (b : Bool) | done | bad
+/-- answers to one request of a Tso stream: a timestamp, the cluster id mismatch error (which ends the
+    stream), another error (not the TSO leader; ends the stream too), or nothing because the stream has ended -/
+inductive TsoAns where
+  | ts | mismatch | tsoErr | closed
   deriving Repr, DecidableEq
+
+inductive CfgOut where
+  | ok | notBootstrapped | bodyMismatch
+  deriving Repr, DecidableEq
+
+inductive StepOut where
+  | parked | resp (o : Out) | isBoot (b : Bool) | done | bad | cfg (c : CfgOut) | tso (l : List TsoAns)
+  deriving Repr, DecidableEq
+
+/-- `Server.Tso`: every request's cluster id is compared (before anything else); the first error ends the
+    stream -/
+def tsoRun (cid : Nat) (leader : Bool) : List Nat → List TsoAns
+  | [] => []
+  | h :: hs =>
+    if h ≠ cid then .mismatch :: hs.map (fun _ => .closed)
+    else if !leader then .tsoErr :: hs.map (fun _ => .closed)
+    else .ts :: tsoRun cid leader hs
 
 def step (s : St) : Op → St × StepOut
   | .boot m hdr p =>
@@ -170,6 +193,21 @@ def step (s : St) : Op → St × StepOut
       match validate s mem hdr with
       | some o => (s, .resp o)
       | none => (s, .isBoot mem.running)
+  | .putConfig m hdr body =>
+    match s.members[m]? with
+    | none => (s, .bad)
+    | some mem =>
+      match validate s mem hdr with
+      | some o => (s, .resp o)
+      | none =>
+        if !mem.running then (s, .cfg .notBootstrapped)
+        -- RaftCluster.PutConfig: `meta.GetId() != c.clusterID`; an accepted meta carries the cluster's id
+        else if body ≠ s.cid then (s, .cfg .bodyMismatch)
+        else (s, .cfg .ok)
+  | .tso m hdrs =>
+    match s.members[m]? with
+    | none => (s, .bad)
+    | some mem => (s, .tso (tsoRun s.cid mem.leader hdrs))
 
 def init (cid n leader : Nat) : St :=
   { cid := cid, members := (List.range n).map fun i => { leader := i = leader } }
